@@ -12,7 +12,8 @@ META = {
                    'edges, sort them and set the per-node edge ranges in that order, after the node table exists; (3) the shrinking copy rewrites '
                    'a child range only when it is non-empty and as a difference of index-map entries; (4) the string-table append keeps '
                    'head/tail/n consistent on every path and intern appends exactly when the string is new; (5) growable arrays copy '
-                   'with the element size they were allocated with and the replay queue ensures capacity before storing.',
+                   'with the element size they were allocated with and the replay queue ensures capacity before storing.'
+                   ' (6) edges are grouped by source: the qsort comparator is lexicographic in (u, v) on all nine ordering cases, covers all m edges with the edge size, and dr_pi_dag_set_edge_ptrs cuts ranges on the same key with edges_end(i) and edges_begin(i+1) written as a pair, node 0 starting at 0 and node n-1 ending at m; (7) the chronological replay is the state machine ready -> start -> last_start -> end per node with ready counts zeroed, incremented once per edge target before the replay, decremented per finished predecessor, the successor made ready exactly when its count reaches zero, and every dequeued event handed to the traverser.',
     'not_decided': 'that offsets and edge endpoints inside a dumped DAG are in range, reachability of leaves, identity of the re-read '
                    'DAG, totals after shrinking: properties of run-time data',
     'assumptions': ['writer and reader run on the same ABI (the format stores raw structs)'],
